@@ -187,3 +187,74 @@ def wl_cases(shard: dict, tier: str):
                     for c in tri:
                         yield {'vrl': vrl, 'recs': [['E0', a, 1], ['E11', b, 2], ['I0', c, 3]], 'ocs': vrl + 2}
                         yield {'vrl': vrl, 'recs': [['I0', a, 4], ['I0', b, 0], ['E3', c, 1]], 'ocs': 2 * vrl}
+
+
+# ---------------------------------------------------------------------------------------------------------------------
+# end-to-end specifications written through DLISFile.write (used by C01 and C02 in addition to the synthetic records)
+# ---------------------------------------------------------------------------------------------------------------------
+E2E_SPECS = ['minimal', 'two-frames', 'noformat', 'rich']
+
+
+def e2e_spec(name: str, vrl: int, setid: str = 'E2E-SET', seq: int = 1) -> dict:
+    from mc import spec as S
+    from mc import selftest_dlisio
+    from mc.props import c10
+    if name == 'minimal':
+        sp = S.minimal_spec(vrl=vrl, rows=3, dtype='uint8')
+    elif name == 'rich':
+        sp = selftest_dlisio.rich_spec(vrl)
+    else:
+        sp = c10.make_spec(vrl, name)
+    sp['sul'].update(set_identifier=setid, sul_sequence_number=seq)
+    return sp
+
+
+def e2e_cases(shard: dict, tier: str):
+    for vrl in shard['vrls']:
+        for name in E2E_SPECS:
+            for ics in (None, 1):
+                for ocs in (vrl, 2 ** 16):
+                    yield {'e2e': name, 'vrl': vrl, 'ics': ics, 'ocs': ocs}
+
+
+def e2e_shards(tier: str) -> list[dict]:
+    v = vrl_list(tier)
+    if tier == 'thorough':
+        v = list(range(20, 1026, 2)) + [x for x in SPECIAL_VRLS if x > 1026]
+    n = 12 if tier == 'quick' else 48
+    return [{'kind': 'e2e', 'vrls': v[i:i + n]} for i in range(0, len(v), n)]
+
+
+TAP: list = []
+_TAP_ON = False
+
+
+def install_segment_tap() -> None:
+    """Wrap LogicalRecordBytes.make_segments so that the harness learns what the segmenter was given."""
+    global _TAP_ON
+    if _TAP_ON:
+        return
+    from dliswriter.logical_record.core.logical_record.logical_record_bytes import LogicalRecordBytes
+    orig = LogicalRecordBytes.make_segments
+
+    def tapped(self, max_n_bytes):
+        if self._bts:
+            TAP.append((bool(self._is_eflr), self._lr_type_struct[0] if self._lr_type_struct else None, bytes(self._bts)))
+        return orig(self, max_n_bytes)
+    LogicalRecordBytes.make_segments = tapped
+    _TAP_ON = True
+
+
+def run_e2e(case: dict) -> dict:
+    from mc import spec as S
+    install_segment_tap()
+    sp = e2e_spec(case['e2e'], case['vrl'])
+    sp['write'] = {'output_chunk_size': case['ocs']}
+    if case['ics']:
+        sp['write']['input_chunk_size'] = case['ics']
+    del TAP[:]
+    res = S.run_spec(sp)
+    given = list(TAP)
+    if res['failed_at'] is not None or res['write'] != 'ok':
+        return {'exc': res['status'][-1] if res['failed_at'] is not None else res['write'], 'given': given}
+    return {'data': res['data'], 'given': given, 'total': len(res['data'])}
